@@ -37,7 +37,7 @@ fn gen_counts<A: Abc>(rng: &mut impl Rng, m: usize) -> Vec<Vec<u32>> {
             // distribute n sequences over the symbols (sparse rows are common in real motifs)
             let mut row = vec![0u32; A::KK];
             for _ in 0..n {
-                let k = if rng.gen_bool(0.03) { A::KK - 1 } else if rng.gen_bool(0.5) { rng.gen_range(0..(A::KK - 1).min(3)) } else { rng.gen_range(0..A::KK - 1) };
+                let k = if rng.gen_bool(0.08) { A::KK - 1 } else if rng.gen_bool(0.5) { rng.gen_range(0..(A::KK - 1).min(3)) } else { rng.gen_range(0..A::KK - 1) };
                 row[k] += 1;
             }
             row
@@ -73,14 +73,17 @@ fn gen_bg<A: Abc>(rng: &mut impl Rng) -> (Vec<i64>, i64) {
     match rng.gen_range(0..4) {
         0 => { let mut v = vec![1i64; k]; v.push(0); (v, k as i64) }                       // uniform
         1 if k == 4 => if rng.gen_bool(0.3) { (vec![2, 0, 1, 1, 0], 4) } else { (vec![4, 1, 1, 2, 0], 8) }, // zero for a real symbol / dyadic
-        2 if k == 4 => (vec![3, 2, 2, 3, 0], 10),                                          // decimal, strand-symmetric
+        2 if k == 4 => if rng.gen_bool(0.4) { (vec![2, 2, 2, 1, 1], 8) } else { (vec![3, 2, 2, 3, 0], 10) },  // wildcard with its own frequency / decimal, strand-symmetric
         3 if k == 4 => (vec![1, 4, 2, 1, 0], 8),
         _ => {
             // protein: dyadic weights 1,2,... normalised to 32
             let mut v = vec![1i64; k];
             let mut left = 32 - k as i64;
+            // one protein background in three gives the wildcard a frequency of its own
+            let wild = if rng.gen_bool(0.33) { 2 } else { 0 };
+            left -= wild;
             while left > 0 { let j = rng.gen_range(0..k); v[j] += 1; left -= 1; }
-            v.push(0);
+            v.push(wild);
             (v, 32)
         }
     }
@@ -212,7 +215,7 @@ fn gen_bg_second<A: Abc>(bn: &[i64], bd: i64) -> (Vec<i64>, i64) {
     // rotate the non-wildcard entries: a different valid background with the same denominator
     let k = A::KK - 1;
     let mut v: Vec<i64> = (0..k).map(|i| bn[(i + 1) % k]).collect();
-    v.push(0);
+    v.push(bn[k]);
     (v, bd)
 }
 
@@ -390,7 +393,9 @@ pub fn record_c10(rec: &mut Recorder, seed: u64, thorough: bool) {
         // ---- commutation with count -> freq -> weight -> score under strand-symmetric pseudocounts / background
         if m >= 1 {
             let (pn, pd): (i64, i64) = [(0, 1), (1, 10), (1, 2), (1, 1)][it % 4];
-            let (bn, bd): (Vec<i64>, i64) = if it % 2 == 0 { (vec![1, 1, 1, 1, 0], 4) } else { (vec![3, 2, 3, 2, 0], 10) }; // A=T, C=G
+            // strand-symmetric backgrounds (A=T, C=G; columns are A C T G N): uniform, decimal, AT-only and GC-only (zeros
+            // in non-adjacent columns)
+            let (bn, bd): (Vec<i64>, i64) = match it % 5 { 0 | 2 => (vec![1, 1, 1, 1, 0], 4), 1 => (vec![3, 2, 3, 2, 0], 10), 3 => (vec![1, 0, 1, 0, 0], 2), _ => (vec![0, 1, 0, 1, 0], 2) };
             let r = guarded(|| {
                 let cm = CountMatrix::<A>::new(counts_dense::<A>(&counts)).unwrap();
                 let bg = bg_of::<A>(&bn, bd).unwrap();
@@ -432,8 +437,12 @@ pub fn record_c10(rec: &mut Recorder, seed: u64, thorough: bool) {
                 let rcm = sm.reverse_complement();
                 let rc_ranks: Vec<usize> = ranks.iter().rev().map(|&x| <A as ComplementableAlphabet>::complement(A::sym(x)).as_index()).collect();
                 let pli = Pipeline::<A, _>::generic();
-                let mut s1: lightmotif::seq::StripedSequence<A, U32> = pli.stripe(A::syms(&ranks)); s1.configure(&sm);
-                let mut s2: lightmotif::seq::StripedSequence<A, U32> = pli.stripe(A::syms(&rc_ranks)); s2.configure(&rcm);
+                let mut s1: lightmotif::seq::StripedSequence<A, U32> = pli.stripe(A::syms(&ranks));
+                let mut s2: lightmotif::seq::StripedSequence<A, U32> = pli.stripe(A::syms(&rc_ranks));
+                // every other pair of sequences was used with a shorter motif before (look-ahead rows added in two steps)
+                if it % 2 == 0 && m >= 3 { s1.configure_wrap(1 + it % (m - 2)); s2.configure_wrap(1 + (it / 2) % (m - 2)); }
+                s1.configure(&sm);
+                s2.configure(&rcm);
                 let o1: Vec<Value> = sm.score(&s1).unstripe().iter().map(|&x| grid(x, 2)).collect();
                 let o2: Vec<Value> = rcm.score(&s2).unstripe().iter().map(|&x| grid(x, 2)).collect();
                 (rc_ranks, o1, o2)
